@@ -56,9 +56,16 @@ type Model struct {
 }
 
 // Load reads and verifies the ten golden files.
-func Load(dir string) (*Model, error) {
+func Load(dir string) (*Model, error) { return LoadLangs(dir, nil) }
+
+// LoadLangs reads and verifies only the given languages (nil = all); used by the
+// one-process-per-execution engines, whose start-up cost matters.
+func LoadLangs(dir string, only map[int]bool) (*Model, error) {
 	m := &Model{}
 	for l, stem := range FileNames {
+		if only != nil && !only[l] {
+			continue
+		}
 		p := filepath.Join(dir, stem+".txt")
 		data, err := os.ReadFile(p)
 		if err != nil {
